@@ -1221,7 +1221,72 @@ func (fx *FnExec) mergeStates(ins []incoming) *State {
 		}
 		res.pc = c.Or(cond, res.pc)
 	}
+	fx.mergeRngs(ins, res)
 	return res
+}
+
+// mergeRngs: abstract byte strings across a join.  For a remembered byte string over the array of a known
+// object whose array differs between the incoming states, the byte string over the merged array is the
+// corresponding choice of the incoming ones.
+func (fx *FnExec) mergeRngs(ins []incoming, res *State) {
+	if len(fx.rngs) == 0 || fx.noAssume {
+		return
+	}
+	c := fx.c
+	key := "M|uint8|"
+	mf, ok := res.heap[key]
+	if !ok {
+		return
+	}
+	for _, in := range ins {
+		if _, ok := in.st.heap[key]; !ok {
+			return
+		}
+	}
+	n := len(fx.rngs)
+	added := 0
+	done := map[[3]int]bool{}
+	for i := 0; i < n && added < 48; i++ {
+		r := fx.rngs[i]
+		if r.ref == nil {
+			continue
+		}
+		k3 := [3]int{r.ref.ID, r.off.ID, r.ln.ID}
+		if done[k3] {
+			continue
+		}
+		// is this record about the array of r.ref in one of the incoming states?
+		hit := false
+		var arrs []*Term
+		differ := false
+		for _, in := range ins {
+			a := c.Select(in.st.heap[key], r.ref)
+			arrs = append(arrs, a)
+			if a == r.arr {
+				hit = true
+			}
+			if a != arrs[0] {
+				differ = true
+			}
+		}
+		if !hit || !differ {
+			continue
+		}
+		done[k3] = true
+		m := c.Select(mf, r.ref)
+		// ins are merged as ite(cond_0, in_0, ite(cond_1, in_1, ... in_last))
+		val := c.App("rng", UnintSort("Bytes"), arrs[len(arrs)-1], r.off, r.ln)
+		for j := len(ins) - 2; j >= 0; j-- {
+			val = c.Ite(ins[j].cond, c.App("rng", UnintSort("Bytes"), arrs[j], r.off, r.ln), val)
+		}
+		mt := c.App("rng", UnintSort("Bytes"), m, r.off, r.ln)
+		fx.assumeGlobal(c.Eq(mt, val))
+		if !fx.rngSeen[mt] {
+			fx.rngSeen[mt] = true
+			fx.rngs = append(fx.rngs, rngRec{arr: m, off: r.off, ln: r.ln, ref: r.ref})
+			added++
+		}
+	}
 }
 
 type pendingFam struct {
